@@ -78,3 +78,78 @@ Theorem C01_lr_terminates_validated : GV.LR.TermSpec.lr_terminates_validated_stm
 Proof. exact GV.Properties.LRterm.LRterm_lr_terminates_validated. Qed.
 Print Assumptions C01_lr_terminates_validated.
 
+
+(* ---- the construction END TO END (theories/C01/Pipeline*.v): the mirror of lrtable::from_yacc =
+   mirror of pager_stategraph + gc (C02) composed with the mirror of StateTable::new (C03), for every
+   grammar, every oracle of hash orders, every StorageT bound.  The table it builds ALWAYS passes
+   validS/validE, so C01's first clause holds for it whatever conflicts were resolved; when the
+   construction reports no conflict and precedence settled no cell it coincides with the automaton
+   induced by the graph and passes validC/single_candidate, so C01's second clause holds. *)
+From GV Require Import C02.LoopModel C02.LoopSpec C03.Model C03.Spec.
+From GV Require Import C01.Pipeline C01.PipelineSpec C01.PipelineEdges C01.PipelineTable C01.PipelineProofs
+  C01.PipelineProofsC C01.PipelineMain C01.PipelineDecl.
+From GV Require C01.PipelineExamples.
+
+Theorem C01_pager_mirror_edges_nodup : pager_mirror_edges_nodup_stmt.
+Proof. exact pager_mirror_edges_nodup. Qed.
+Print Assumptions C01_pager_mirror_edges_nodup.
+
+Theorem C01_pager_mirror_all_reachable : pager_mirror_all_reachable_stmt.
+Proof. exact pager_mirror_all_reachable. Qed.
+Print Assumptions C01_pager_mirror_all_reachable.
+
+Theorem C01_construction_validated : construction_validated_stmt.
+Proof. exact construction_validated. Qed.
+Print Assumptions C01_construction_validated.
+
+Theorem C01_construction_sound : construction_sound_stmt.
+Proof. exact construction_sound. Qed.
+Print Assumptions C01_construction_sound.
+
+Theorem C01_construction_never_panics : construction_never_panics_stmt.
+Proof. exact construction_never_panics. Qed.
+Print Assumptions C01_construction_never_panics.
+
+Theorem C01_construction_rejects_nonsentences : construction_rejects_nonsentences_stmt.
+Proof. exact construction_rejects_nonsentences. Qed.
+Print Assumptions C01_construction_rejects_nonsentences.
+
+Theorem C01_construction_agrees_with_induced : construction_agrees_with_induced_stmt.
+Proof. exact construction_agrees_with_induced. Qed.
+Print Assumptions C01_construction_agrees_with_induced.
+
+Theorem C01_construction_conflict_free : construction_conflict_free_stmt.
+Proof. exact construction_conflict_free. Qed.
+Print Assumptions C01_construction_conflict_free.
+
+Theorem C01_construction_complete : construction_complete_stmt.
+Proof. exact construction_complete. Qed.
+Print Assumptions C01_construction_complete.
+
+Theorem C01_construction_accepts_sentences : construction_accepts_sentences_stmt.
+Proof. exact construction_accepts_sentences. Qed.
+Print Assumptions C01_construction_accepts_sentences.
+
+Theorem C01_construction_noprec_complete : construction_noprec_complete_stmt.
+Proof. exact construction_noprec_complete. Qed.
+Print Assumptions C01_construction_noprec_complete.
+
+Theorem C01_construction_complete_reports_only_refuted : construction_complete_reports_only_refuted_stmt.
+Proof. exact GV.C01.PipelineExamples.construction_complete_reports_only_refuted. Qed.
+Print Assumptions C01_construction_complete_reports_only_refuted.
+
+Theorem C01_construction_total : construction_total_stmt.
+Proof. exact construction_total. Qed.
+Print Assumptions C01_construction_total.
+
+Theorem C01_construction_lr1_correct : construction_lr1_correct_stmt.
+Proof. exact construction_lr1_correct. Qed.
+Print Assumptions C01_construction_lr1_correct.
+
+Theorem C01_construction_decl_sound : construction_decl_sound_stmt.
+Proof. exact construction_decl_sound. Qed.
+Print Assumptions C01_construction_decl_sound.
+
+Theorem C01_construction_decl_complete : construction_decl_complete_stmt.
+Proof. exact construction_decl_complete. Qed.
+Print Assumptions C01_construction_decl_complete.
